@@ -4,6 +4,12 @@ import json, subprocess
 
 # id -> (category, engine, technique, text, note, design_ref)
 CHECKS = {
+ "C08": ("exploration", "E-codec", "bounded-exhaustive enumeration of (dimensions, depth, flag, data) incl. all 2-byte (3-byte thorough) strings and grammar-aware order sequences on the real decompress, with an allocation bound",
+         "Every data string of length <=2 (<=3 thorough) for every small dimension pair (0..4 squared plus 8x1,1x8,9x2,255x1,256x256), grammar-aware sequences of interleaved-RLE orders (every order kind x form x boundary run length, undefined codes, truncated headers) and of planar control segments, all 256 planar header bytes, and uncompressed data lengths around the exact size are executed on the real BitmapEvent::decompress. Oracle: returns (no panic), Ok => exactly w*h*4 bytes, peak allocation <= 4*(w*h*4)+8*len+64KiB.",
+         "Dimensions above 256x256 and longer unstructured strings are outside the bound. Trusted: counting allocator, reference order emitter.", "§4 C08"),
+ "C09": ("exploration", "E-codec", "bounded-exhaustive enumeration of conformant encodings (order sequences, plane segmentations, raw layouts) decoded by the real code and by a reference decoder transcribed from the specification",
+         "Enumerates encodings, not images: every sequence of <=3 (<=4 thorough) interleaved-RLE orders over all 12 order kinds x short/extended/mega-mega forms x every fitting run length x a 3-colour palette that the MS-RDPBCGR 3.1.9 reference decoder maps onto a complete tiny image; larger shapes with <=2 orders for extended forms and special orders; every plane vector over five values x every scan-line segmentation for planar 32 bpp plus wide lines for both long-run escapes; raw 16/32 bpp bottom-up layouts; all 65536 5-6-5 values. Oracle: decompress() == reference image, top-down BGRA.",
+         "Order sequences where a bg/fg/FGBG order straddles the end of the first scan line are excluded (spec prose and pseudo-code disagree) and counted in the evidence. Trusted: vref::rle (self-tested at start-up).", "§4 C09"),
  "C13": ("exploration", "E-codec", "bounded-exhaustive enumeration of frame streams x read schedules against a reference deframer, executed on the real tpkt/x224 readers",
          "Every TPKT length field (65536), every short fast-path length x first byte, every 15-bit long-form length, and every read schedule within the bound (caps, every single split, all pairs of splits inside headers, all 2^(n-1) compositions of short streams) is executed on the real tpkt::Client::read / x224::Client::read over an in-memory transport and compared frame by frame (kind, security flags, payload, bytes left in the transport) with an independent reference deframer. Exhaustive within these bounds, no sampling.",
          "Trusted: the reference deframer (vref::framing, validated by unit vectors), the in-memory Read. Undefined first bytes (action bits 1/2) are executed for totality only. Streams are three frames long; payload contents are position-coded, not enumerated.", "§4 C13"),
